@@ -129,6 +129,7 @@ func (r *recStore) rec(op string, arg int, f func() error) error {
 		o.Txt = err.Error()
 	}
 	r.w.log = append(r.w.log, o)
+	r.w.horizon()
 	return err
 }
 func (r *recStore) IncrNextSenderMsgSeqNum() error {
@@ -199,6 +200,7 @@ func (a *recApp) hdr(k string, m *quickfix.Message) {
 		o.End, _ = m.Body.GetInt(16)
 	}
 	w.log = append(w.log, o)
+	w.horizon()
 }
 func (a *recApp) OnCreate(quickfix.SessionID) {}
 func (a *recApp) OnLogon(quickfix.SessionID) {
@@ -264,15 +266,18 @@ type World struct {
 	AppLoggedOn int
 	Started     bool
 	Now         func() time.Time
-	LastIn      *fixscan.Msg // last materialised inbound message (nil for garbage)
-	LastInT     int          // expected inbound number just before it was delivered
-	dir         string       // file-store directory of this world
+	LastIn      *fixscan.Msg  // last materialised inbound message (nil for garbage)
+	LastInT     int           // expected inbound number just before it was delivered
+	dir         string        // file-store directory of this world
 	VNow        time.Duration // virtual clock (Timed mode)
 	DeadS       time.Duration // virtual deadline of the heartbeat timer
 	DeadP       time.Duration // virtual deadline of the peer timer
 	Restarts    int
 	Delivered   []string // ClOrdID (11) of every application message handed to FromApp, in order
 	Loop        *LoopCtl // non-nil: run-loop mode
+	Hung        bool     // a handler did not return (the world is abandoned)
+	applyStart  int
+	applyName   string
 }
 
 const (
@@ -502,8 +507,8 @@ type In struct {
 	Abs      int  // absolute MsgSeqNum
 	PossDup  bool // 43=Y with OrigSendingTime one minute earlier
 	Body     []fixscan.Field
-	NewRel   *int // SequenceReset: NewSeqNo = own MsgSeqNum + *NewRel
-	NewRelT  *int // SequenceReset: NewSeqNo = T + *NewRelT
+	NewRel   *int            // SequenceReset: NewSeqNo = own MsgSeqNum + *NewRel
+	NewRelT  *int            // SequenceReset: NewSeqNo = T + *NewRelT
 	Set      []fixscan.Field // header overrides / additions (replace value if tag present)
 	Del      []int           // header/body fields to drop
 	TimeSkew time.Duration   // SendingTime offset
@@ -653,6 +658,8 @@ func (w *World) Enabled(e *Event) bool {
 	switch e.K {
 	case "connect":
 		return !sn.Connected
+	case "connect2":
+		return sn.Connected
 	case "disconnect", "in":
 		return sn.Connected && !sn.InNil
 	case "flush":
@@ -684,8 +691,19 @@ func (w *World) Enabled(e *Event) bool {
 }
 
 // Apply performs one transition and returns its observations (ordered).
+// horizon: deterministic step bound of one handler call. No event of any alphabet makes the engine call back
+// more than a few hundred times; a handler that has called back 100000 times is in a loop (it would also
+// exhaust memory long before the wall-clock watchdog fires).
+func (w *World) horizon() {
+	if len(w.log)-w.applyStart > 100000 {
+		w.log = w.log[:w.applyStart]
+		panic("hang: the handler for " + w.applyName + " called back more than 100000 times without returning")
+	}
+}
+
 func (w *World) Apply(e *Event) (obs []Obs) {
 	start := len(w.log)
+	w.applyStart, w.applyName = start, e.Name
 	defer func() {
 		if r := recover(); r != nil {
 			w.log = append(w.log, Obs{K: "panic", Txt: fmt.Sprint(r)})
@@ -697,6 +715,32 @@ func (w *World) Apply(e *Event) (obs []Obs) {
 		w.applyLoop(e)
 		return
 	}
+	if w.Hung {
+		return
+	}
+	done := make(chan struct{})
+	go func() {
+		defer close(done)
+		defer func() {
+			if r := recover(); r != nil {
+				w.log = append(w.log, Obs{K: "panic", Txt: fmt.Sprint(r)})
+			}
+		}()
+		w.applySync(e)
+	}()
+	select {
+	case <-done:
+	case <-time.After(30 * time.Second):
+		// handlers take microseconds: the session goroutine would be stuck here for good
+		// (the stuck goroutine keeps its own reference to the old log slice; this world is not used again)
+		w.Hung = true
+		w.log = append(append([]Obs{}, w.log[:start]...), Obs{K: "panic", Txt: "hang: the handler for " + e.Name + " did not return within 30 s"})
+		w.out = nil
+	}
+	return
+}
+
+func (w *World) applySync(e *Event) {
 	switch e.K {
 	case "connect":
 		w.out = make(chan []byte, 512)
@@ -705,6 +749,11 @@ func (w *World) Apply(e *Event) (obs []Obs) {
 		w.OutOpen = true
 		if err := w.VS.Connect(w.out, w.in); err != nil {
 			w.log = append(w.log, Obs{K: "connecterr", Txt: err.Error()})
+		}
+	case "connect2":
+		// a second connection for a session that is connected must be refused ("Already connected")
+		if err := w.VS.Connect(make(chan []byte, 8), make(chan quickfix.VerifFixIn, 1)); err == nil {
+			w.log = append(w.log, Obs{K: "second-connect-accepted"})
 		}
 	case "disconnect":
 		// the read loop closes messageIn; the run loop sees !ok and calls Disconnected
@@ -885,8 +934,8 @@ func (w *World) drain() {
 func (w *World) Key() string {
 	sn := w.VS.Snapshot()
 	var sb strings.Builder
-	fmt.Fprintf(&sb, "%s|T%d|S%d|st%v%v|re%d,%d|sr%v|q%d|ps%v%v|o%v|i%v|me%d|hb%d|a%v%v|c%v|M%s",
-		sn.State, w.T(), w.S(), sn.Stash, sn.StashTypes, sn.ResendEnd, sn.CurResendEnd, sn.SentReset, sn.ToSend,
+	fmt.Fprintf(&sb, "%s|T%d|S%d|st%v%v%v|re%d,%d|sr%v|q%d|ps%v%v|o%v|i%v|me%d|hb%d|a%v%v|c%v|M%s",
+		sn.State, w.T(), w.S(), sn.Stash, sn.StashTypes, sn.StashNewSeq, sn.ResendEnd, sn.CurResendEnd, sn.SentReset, sn.ToSend,
 		sn.PendingStop, sn.Stopped, sn.OutNil, sn.InNil, sn.MsgEvent, int(sn.HeartBtInt/time.Second), w.ArmS, w.ArmP, w.OutOpen, w.StoredTypes())
 	sb.WriteString(w.timeKey())
 	return sb.String()
@@ -908,8 +957,16 @@ func (w *World) RelKey() string {
 		}
 		return v - T
 	}
-	fmt.Fprintf(&sb, "%s|T1%v|S1%v|st%v%v|re%d,%d|sr%v|q%d|ps%v%v|o%v|i%v|me%d|hb%d|a%v%v|c%v|M",
-		sn.State, T == 1, S == 1, st, sn.StashTypes, rel(sn.ResendEnd), rel(sn.CurResendEnd), sn.SentReset, sn.ToSend,
+	ns := make([]int, len(sn.StashNewSeq))
+	for i, k := range sn.StashNewSeq {
+		if k != 0 {
+			ns[i] = k - T
+		} else {
+			ns[i] = -9999
+		}
+	}
+	fmt.Fprintf(&sb, "%s|T1%v|S1%v|st%v%v%v|re%d,%d|sr%v|q%d|ps%v%v|o%v|i%v|me%d|hb%d|a%v%v|c%v|M",
+		sn.State, T == 1, S == 1, st, sn.StashTypes, ns, rel(sn.ResendEnd), rel(sn.CurResendEnd), sn.SentReset, sn.ToSend,
 		sn.PendingStop, sn.Stopped, sn.OutNil, sn.InNil, sn.MsgEvent, int(sn.HeartBtInt/time.Second), w.ArmS, w.ArmP, w.OutOpen)
 	sb.WriteString(w.timeKey())
 	keys := make([]int, 0, len(w.store.types))
